@@ -1,4 +1,5 @@
 """C19 - character-matrix row/column operations select exactly what they name; terminate."""
+import collections
 import io
 import itertools
 import os
@@ -14,7 +15,8 @@ RULE = ("histories of 1-10 operations (concatenate, export_character_indices/_su
         "update_/extend_sequences, extend_matrix, remove_/discard_/keep_sequences, new_character_subset, matrix[taxon] get/set/del, new_sequence, clear, items, len/max_sequence_size) over a pool of 2-5 matrices of one of the 8 "
         "data types, two namespaces (the second one foreign), partial taxon overlap, ragged and rectangular rows, labels drawn "
         "from a small colliding set (None, equal, equal up to case, generated locusNNN / x_002 forms), the same object passed "
-        "twice and as its own argument; plus concatenate_from_streams / concatenate_from_paths on NEXUS sources; thorough adds the exhaustive small scope "
+        "twice and as its own argument; every iterable argument (taxa, indices, values, streams, paths) passed as list, tuple, "
+        "generator, map, filter, reversed, iter, chain, deque, dict view, set/frozenset or TaxonNamespace, in orders unrelated to the row order; plus concatenate_from_streams / concatenate_from_paths on NEXUS sources; thorough adds the exhaustive small scope "
         "(2 taxa, every row-presence x length pattern, every binary op pair, every fill/pack/remove/discard/keep/export argument, "
         "every label list up to length 3). non-trivial = at least two rows and one non-empty row among the operands, or a "
         "concatenation of >= 2 matrices")
@@ -174,6 +176,59 @@ def enc_matrix(env, s):
     return " ".join(toks)
 
 
+# ------------------------------------------------------------------------------------------------ argument kinds
+# every parameter documented as "a list or some other iterable" is driven with each of these; the result must not
+# depend on the kind.  ONE_SHOT kinds can be traversed only once; DEDUP kinds drop repetitions (used when there are
+# none); UNORDERED kinds have no defined order (used when the documented result does not depend on it).
+ORDERED_KINDS = ["list", "tuple", "gen", "map", "filter", "reversed", "iter", "chain", "deque"]
+DEDUP_KINDS = ["dictkeys", "dictvalues", "namespace"]
+UNORDERED_KINDS = ["set", "frozenset"]
+
+
+def wrap(kind, items, dendropy=None):
+    """the same elements in the same order (where the kind has one), as an iterable of the given kind"""
+    items = list(items)
+    if kind in (None, "list"):
+        return items
+    if kind == "tuple":
+        return tuple(items)
+    if kind == "gen":
+        return (x for x in items)
+    if kind == "map":
+        return map(lambda x: x, items)
+    if kind == "filter":
+        return filter(lambda x: True, items)
+    if kind == "reversed":
+        return reversed(items[::-1])
+    if kind == "iter":
+        return iter(items)
+    if kind == "chain":
+        return itertools.chain(items[:1], items[1:])
+    if kind == "deque":
+        return collections.deque(items)
+    if kind == "dictkeys":
+        return dict.fromkeys(items).keys()
+    if kind == "dictvalues":
+        return {i: x for i, x in enumerate(items)}.values()
+    if kind == "namespace":
+        return dendropy.TaxonNamespace(items)
+    if kind == "set":
+        return set(items)
+    if kind == "frozenset":
+        return frozenset(items)
+    raise RuntimeError("unknown argument kind %r" % kind)
+
+
+def pick_kind(rng, items, order_matters, taxa=False):
+    """a kind that denotes exactly `items` (in order, if order matters)"""
+    kinds = list(ORDERED_KINDS) + ["dictvalues"]
+    if len(set(items)) == len(items):
+        kinds += ["dictkeys"] + (["namespace"] if taxa else [])
+        if not order_matters:
+            kinds += UNORDERED_KINDS
+    return rng.choice(kinds) if rng.random() < 0.75 else "list"
+
+
 # ------------------------------------------------------------------------------------------------ implementation
 def execute(env, pool, op):
     """returns (status, result)"""
@@ -184,7 +239,7 @@ def execute(env, pool, op):
                 return "ok", env.cls.concatenate([pool[i] for i in op["args"]])
             m = pool[op["m"]]
             if name == "export_idx":
-                return "ok", m.export_character_indices(list(op["idx"]))
+                return "ok", m.export_character_indices(wrap(op.get("kind"), op["idx"]))
             if name == "export_sub":
                 if op["by"] == "label":
                     return "ok", m.export_character_subset(op["label"])
@@ -193,10 +248,10 @@ def execute(env, pool, op):
             if name == "getitem":
                 return "ok", [env.code(v) for v in m[env.taxon_of[op["t"]]].values()]
             if name == "setitem":
-                m[env.taxon_of[op["t"]]] = [env.value(m, c) for c in op["row"]]
+                m[env.taxon_of[op["t"]]] = wrap(op.get("kind"), [env.value(m, c) for c in op["row"]])
                 return "ok", None
             if name == "newseq":
-                m.new_sequence(env.taxon_of[op["t"]], [env.value(m, c) for c in op["row"]])
+                m.new_sequence(env.taxon_of[op["t"]], wrap(op.get("kind"), [env.value(m, c) for c in op["row"]]))
                 return "ok", None
             if name == "delitem":
                 del m[env.taxon_of[op["t"]]]
@@ -207,7 +262,7 @@ def execute(env, pool, op):
             if name == "items":
                 return "ok", [[env.gid_of.get(id(t), -1), [env.code(v) for v in seq.values()]] for t, seq in m.items()]
             if name == "new_subset":
-                m.new_character_subset(op["label"], list(op["idx"]))
+                m.new_character_subset(op["label"], wrap(op.get("kind"), op["idx"]))
                 return "ok", None
             if name == "sizes":
                 return "ok", [len(m), m.max_sequence_size]
@@ -232,9 +287,7 @@ def execute(env, pool, op):
                 else:
                     m.extend_matrix(o)
                 return "ok", None
-            taxa = [env.taxon_of[g] for g in op["taxa"]]
-            if op.get("as_set"):
-                taxa = set(taxa)
+            taxa = wrap("set" if op.get("as_set") else op.get("kind"), [env.taxon_of[g] for g in op["taxa"]], env.dp)
             if name == "remove":
                 m.remove_sequences(taxa)
             elif name == "discard":
@@ -507,8 +560,8 @@ def oracle(env, op, pre, post, status, res, ret, pool_ids, res_id):
     else:
         want = {g: r for g, r in s.rows.items() if g in taxa}
     if p.rows != want:
-        bad.append(("rows", "%s_sequences(%s): %s -> %s, documented result %s" % (
-            name, taxa, state_string(s.rows, []), state_string(p.rows, []), state_string(want, []))))
+        bad.append(("rows", "%s_sequences(%s of %s): %s -> %s, documented result %s" % (
+            name, op.get("kind", "list"), taxa, state_string(s.rows, []), state_string(p.rows, []), state_string(want, []))))
     return bad
 
 
@@ -730,6 +783,7 @@ def gen_op(rng, env, pre, max_w):
         op = {"op": "concat", "args": args}
     elif r < 0.32:
         op = {"op": "export_idx", "m": m, "idx": [rng.randint(-2, max_w * 2 + 2) for _ in range(rng.randint(0, 6))]}
+        op["kind"] = pick_kind(rng, op["idx"], False)
     elif r < 0.40:
         with_subs = [i for i in range(n) if pre[i].subs]
         u = rng.random()
@@ -757,11 +811,13 @@ def gen_op(rng, env, pre, max_w):
             op["t"] = rng.choice(univ)
         if name in ("setitem", "newseq"):
             op["row"] = [rng.randint(1, env.ncodes) for _ in range(rng.randint(0, max_w))]
+            op["kind"] = rng.choice(["list", "tuple", "gen", "map", "iter", "deque"])
     elif r < 0.625:
         u = rng.random()
         lab = rng.choice(s.subs)[0] if (s.subs and u < 0.3) else rng.choice([l for l in LABELS if l is not None])
         op = {"op": "new_subset", "m": m, "label": rng.choice([lab, lab, lab.upper(), lab.lower()]),
               "idx": [rng.randint(0, max_w * 2 + 1) for _ in range(rng.randint(0, 5))]}
+        op["kind"] = pick_kind(rng, op["idx"], False)
     elif r < 0.82:
         op = {"op": rng.choice(BINARY), "m": m, "o": rng.randrange(n) if rng.random() < 0.9 else m}
     else:
@@ -775,8 +831,9 @@ def gen_op(rng, env, pre, max_w):
             if rng.random() < 0.6:
                 taxa = list(dict.fromkeys(taxa))
         op = {"op": name, "m": m, "taxa": taxa}
-        if rng.random() < 0.2 and len(set(taxa)) == len(taxa) and (name != "remove" or all(g in s.rows for g in taxa)):
-            op["as_set"] = True
+        # remove_sequences stops at the first missing taxon: its partial result depends on the order unless all are present
+        order_matters = name == "remove" and not all(g in s.rows for g in taxa)
+        op["kind"] = pick_kind(rng, taxa, order_matters, taxa=True)
     if op["op"] in ("concat", "export_idx", "export_sub"):
         op["dst"] = n if n < 6 else rng.randrange(n)
     return op
@@ -827,9 +884,10 @@ def stream_case(ctx, dendropy, case, pending):
                     if i not in missing:
                         with open(paths[-1], "w") as f:
                             f.write(d)
-                res = dendropy.DnaCharacterMatrix.concatenate_from_paths(paths, "nexus")
+                res = dendropy.DnaCharacterMatrix.concatenate_from_paths(wrap(case.get("kind"), paths), "nexus")
             else:
-                res = dendropy.DnaCharacterMatrix.concatenate_from_streams([io.StringIO(d) for d in docs], "nexus")
+                res = dendropy.DnaCharacterMatrix.concatenate_from_streams(
+                    wrap(case.get("kind"), [io.StringIO(d) for d in docs]), "nexus")
     except Timeout:
         status = "Timeout"
     except OSError:
@@ -900,7 +958,8 @@ def gen_stream_case(rng):
     for _ in range(k):
         w = rng.randint(1, 4)
         mats.append(["".join(rng.choice("ACGT-?N") for _ in range(w)) for _ in range(n)])
-    case = {"labels": labels, "titles": titles, "rows": mats, "via": rng.choice(["streams", "streams", "paths"])}
+    case = {"labels": labels, "titles": titles, "rows": mats, "via": rng.choice(["streams", "streams", "paths"]),
+            "kind": rng.choice(["list", "tuple", "gen", "map", "iter", "deque"])}
     if rng.random() < 0.15:
         i = rng.randrange(k)
         case["bad"] = {str(i): rng.choice(["garbage", "empty", "taxon"] if i > 0 else ["garbage", "empty"])}
@@ -962,13 +1021,21 @@ def exhaustive(ctx, dendropy, pending):
     for a in pats:
         for name in ("remove", "discard", "keep"):
             for taxa in lists:
-                n += go(next(dtypes), [mat(a)], [{"op": name, "m": 0, "taxa": taxa}])
+                present = {g for g, _ in a}
+                kinds = ORDERED_KINDS + ["dictvalues"]
+                if len(set(taxa)) == len(taxa):
+                    kinds = kinds + ["dictkeys", "namespace"]
+                    if name != "remove" or all(g in present for g in taxa):
+                        kinds = kinds + UNORDERED_KINDS
+                for kind in kinds:       # every kind of iterable that denotes this taxon list
+                    n += go(next(dtypes), [mat(a)], [{"op": name, "m": 0, "taxa": taxa, "kind": kind}])
     # export: every index set over {-1,0,1,2,3}, and by name
     cols = [-1, 0, 1, 2, 3]
     for a in pats:
         for bits in range(32):
             idx = [c for i, c in enumerate(cols) if bits >> i & 1]
-            n += go(next(dtypes), [mat(a)], [{"op": "export_idx", "m": 0, "idx": idx if bits % 3 else idx[::-1] + idx}])
+            n += go(next(dtypes), [mat(a)], [{"op": "export_idx", "m": 0, "idx": idx if bits % 3 else idx[::-1] + idx,
+                                             "kind": (ORDERED_KINDS + ["dictvalues"])[bits % 10]}])
         subs = [["x", [0]], ["Y_002", [1, 2]]]
         for lab in ("x", "X", "y_002", "z", ""):
             n += go(next(dtypes), [mat(a, subs=subs)], [{"op": "export_sub", "m": 0, "by": "label", "label": lab}])
@@ -1068,7 +1135,7 @@ def replay(ctx, rec):
     pending = []
     if c.get("stream"):
         stream_case(ctx, dendropy, {"labels": c["labels"], "titles": c["titles"], "rows": c["rows"],
-                                    "via": c.get("via", "streams"), "bad": c.get("bad", {}),
+                                    "via": c.get("via", "streams"), "kind": c.get("kind"), "bad": c.get("bad", {}),
                                     "missing": c.get("missing", [])}, pending)
     else:
         run_history(ctx, dendropy, {"dtype": c["dtype"], "ns_sizes": c["ns_sizes"], "init": c["init"], "ops": c["ops"]},
